@@ -82,8 +82,8 @@ func (w *World) onDecision(m *Member, d *gpbft.Justification) {
 			w.fail("C02", "wrong_base", "base", "member %d decided %s whose base differs from its input base", m.ID, chainStr(v))
 		}
 		ok := false
-		for idx, hin := range info.Inputs {
-			if w.members[idx].Role == Honest && isPrefixOf(v, hin) {
+		for _, hin := range info.AllInputs {
+			if isPrefixOf(v, hin) {
 				ok = true
 				break
 			}
